@@ -413,7 +413,7 @@ RULES = {
 }
 
 
-DOTALL = ("inner_macro_def", "mismatch_debug", "offered_let")
+DOTALL = ["inner_macro_def", "mismatch_debug", "offered_let"]
 
 
 def make_rewriter(rel, plan):
@@ -549,6 +549,15 @@ def load_targets():
     def add(d, origin):
         d = dict(d)
         d["fns"] = [tuple(x) for x in d.get("fns", [])]
+        # (b1012, round 9) normalisation from a json target file: `"rules": {name: [regex, replacement, why, count?]}` are added to
+        # RULES (a name may not be redefined differently), `"normalise": {"Impl::fn" | "::fn": [rule names]}`
+        for rn, r in (d.pop("rules", None) or {}).items():
+            if rn in RULES and tuple(RULES[rn]) != tuple(r):
+                raise ExtractError("x_fn: %s: normalisation rule %s is already defined differently" % (origin, rn))
+            RULES[rn] = tuple(r)
+        if d.get("normalise") and not all(isinstance(k, tuple) for k in d["normalise"]):
+            d["normalise"] = {((k.split("::", 1)[0] or None, k.split("::", 1)[1]) if isinstance(k, str) else k): list(v)
+                              for k, v in d["normalise"].items()}
         if d["area"] not in by:
             d.setdefault("consts", []); d.setdefault("structs", []); d.setdefault("externals", {}); d.setdefault("foreign_structs", {})
             d["consts"], d["structs"] = list(d["consts"]), list(d["structs"])
@@ -567,6 +576,7 @@ def load_targets():
         t["foreign_structs"].update(d.get("foreign_structs", {}))
         t["tuple_structs"] += [n for n in d.get("tuple_structs", []) if n not in t["tuple_structs"]]
         t["fns_from"] += [n for n in d.get("fns_from", []) if n not in t["fns_from"]]
+        if d.get("normalise"): t.setdefault("normalise", {}).update(d["normalise"])
     for t in TARGETS: add(t, "TARGETS")
     for path in sorted(glob.glob(os.path.join(HERE, "fn_targets", "*.json"))):
         try:
@@ -574,6 +584,22 @@ def load_targets():
         except ValueError as e:
             raise ExtractError("x_fn: %s: %s" % (path, e))
         for d in (data if isinstance(data, list) else [data]):
+            d = dict(d)
+            # (round 9, b04, additive) a target file may bring its own normalisation rules:
+            #   "rules": {name: [regex, replacement, why, count?, "dotall"?]}  (a name already defined differently is an error)
+            #   "normalise": {"Impl::fn": [rule names]}  (JSON has no tuple keys)
+            for rn, rv in (d.pop("rules", None) or {}).items():
+                rv = list(rv)
+                dot = "dotall" in rv[3:]
+                rv = [x for x in rv if x != "dotall"]
+                if len(rv) > 3 and rv[3] == 0: rv[3] = None          # 0 = "at least once"
+                if rn in RULES and tuple(RULES[rn]) != tuple(rv):
+                    raise ExtractError("x_fn: %s: normalisation rule %r is already defined" % (path, rn))
+                RULES[rn] = tuple(rv)
+                if dot and rn not in DOTALL: DOTALL.append(rn)
+            if isinstance(d.get("normalise"), dict):
+                d["normalise"] = {(tuple(k.split("::", 1)) if "::" in k else ("", k)): v
+                                  for k, v in d["normalise"].items() if not isinstance(k, tuple)}
             add(d, os.path.basename(path))
     return tgs
 
@@ -581,21 +607,31 @@ def load_targets():
 FIXTURE_PROP = "FIX"    # functions of harness/src/props/fn_gen_fixture.rs: differential test of the translator only
 
 
+def _json_plan(tg):
+    """json form of a target block (round 9, b0103): `"normalise": {"Impl::fn": [rule names]}`, `"rules": {name: [regex,
+    replacement, what is trusted, count?]}` (a regex that must see several lines starts with `(?s)`; a rule name must not
+    clash with a rule of RULES unless it is the same rule), `"arms"`: see translate/fn_arms.py"""
+    for rn, r in (tg.get("rules") or {}).items():
+        r = tuple(r)
+        if rn in RULES and tuple(RULES[rn]) != r:
+            raise ExtractError("x_fn: area %s: normalisation rule %r is already defined differently" % (tg["area"], rn))
+        RULES[rn] = r
+    norm = tg.get("normalise")
+    if norm:
+        norm = {(((k.rpartition("::")[0] or None), k.rpartition("::")[2]) if isinstance(k, str) else (k[0] or None, k[1])): v for k, v in norm.items()}
+    return norm
+
+
 def unit_for(repo, tg):
     line_map = {}
+    norm = _json_plan(tg)
+    import fn_arms
     rws = []
-    if tg.get("arms"): rws.append(make_arm_synth(tg["rel"], tg["arms"], line_map))
-    if tg.get("rules"):
-        # (round 9) normalisation rules of a fn_targets/*.json file: {"name": [regex, replacement, why, count?]}
-        for rn, r in tg["rules"].items():
-            if rn in RULES and tuple(RULES[rn]) != tuple(r): raise ExtractError("x_fn: rule %s is defined twice" % rn)
-            RULES[rn] = tuple(r)
-    if tg.get("normalise"):
-        plan = {}
-        for k_, v_ in tg["normalise"].items():      # JSON: "Impl::function" / "function" as the key
-            if isinstance(k_, str): k_ = tuple(k_.split("::")) if "::" in k_ else (None, k_)
-            plan[k_] = v_
-        rws.append(make_rewriter(tg["rel"], plan))
+    # `arms`: a list = the form of builder bfn (make_arm_synth: methods appended to the text); a dict = the form of builder
+    # b0103 (fn_arms.make_arm_splitter: the dispatch function's lines rewritten in place)
+    if isinstance(tg.get("arms"), list): rws.append(make_arm_synth(tg["rel"], tg["arms"], line_map))
+    elif tg.get("arms"): rws.append(fn_arms.make_arm_splitter(tg["rel"], tg["arms"]))
+    if norm: rws.append(make_rewriter(tg["rel"], norm))
     def rewrite(src, log, failed):
         for r in rws: src = r(src, log, failed)
         return src
@@ -605,7 +641,7 @@ def unit_for(repo, tg):
              views=tg.get("views"), error_ctors=tg.get("error_ctors"), compact_guards=bool(tg.get("compact_guards")), any_order=bool(tg.get("any_order")),
              rewrite=rewrite if rws else None)
     u.vec_types = tuple(tg.get("vec_types", ()))
-    u.line_map = line_map      # synthesized methods (arms): the line of the arm in the real source
+    u.line_map = line_map      # synthesized methods (arms, list form): the line of the arm in the real source
     u.log_macros = tuple(tg.get("log_macros", ()))     # declared logging-only macros of the file
     return u
 
@@ -624,8 +660,11 @@ def census(repo, tgs=None, units=None):
                 props_of.setdefault(f, []).append(d["id"])
     tied = {}
     for tg in tgs:
+        tu = (units or {}).get(tg["area"])
         for tup in tg["fns"]:
-            tied.setdefault((tg["rel"], tup[0] or None, tup[1]), []).append((tg["area"], tup[2], tup[3]))
+            # (b0507) a target taken from a `fns_from` file of its area counts for the file that defines it
+            src = getattr(tu, "fn_src", {}).get((tup[0] or None, tup[1])) if tu is not None else None
+            tied.setdefault((src.rel if src is not None else tg["rel"], tup[0] or None, tup[1]), []).append((tg["area"], tup[2], tup[3]))
     out = {}
     for rel in files:
         if not os.path.exists(os.path.join(repo, rel)):
@@ -637,12 +676,25 @@ def census(repo, tgs=None, units=None):
             u.open_tuple_structs = set(u.fi.tuple_structs)
         except (RsError, OSError) as e:
             out[rel] = {"properties": props_of[rel], "error": "cannot be indexed: %s" % e}; continue
-        rows = []
+        rows, arm_rows = [], []
         for (impl, name), k in sorted(u.fi.fns.items(), key=lambda kv: kv[1] if isinstance(kv[1], int) else 0):
             qn = (impl + "::" if impl else "") + name
             line_no = u.fi.toks[k].line if isinstance(k, int) else 0
             if (impl, name) in u.fi.decl_only:
                 rows.append({"fn": qn, "line": line_no, "status": "declaration"}); continue
+            # arms of a dispatching `match` translated as methods of their own (translate/fn_arms.py): one extra row per
+            # declared arm, named `Impl::fn[Variant]`; the row of the function itself stays what it is
+            for tg in tgs:
+                sp = tg["arms"].get(qn) if tg["rel"] == rel and isinstance(tg.get("arms"), dict) else None
+                for v, a in (sp["arms"].items() if sp else ()):
+                    tu = (units or {}).get(tg["area"])
+                    ok = tu is not None and (impl, a["fn"]) in tu.fns
+                    tt = [t for t in tg["fns"] if (t[0] or None) == impl and t[1] == a["fn"]]
+                    thm = tt[0][3] if tt else None
+                    arm_rows.append({"fn": "%s[%s::%s]" % (qn, sp["enum"], v), "line": tu.fns[(impl, a["fn"])].line if ok else line_no, "area": tg["area"],
+                                     "status": ("tied" if thm else "translated") if ok else "not translatable",
+                                     **({"property": tt[0][2]} if tt else {}), **({"theorem": thm} if thm and ok else {}),
+                                     **({} if ok else {"why": (tu.failed.get((impl, a["fn"])) if tu else "unit missing")})})
             ties = tied.get((rel, impl, name))
             if ties:
                 # the target's own unit (externals/struct files) decides
@@ -669,7 +721,7 @@ def census(repo, tgs=None, units=None):
         # next to the `fn` items (they are not `fn` items of the source and are not counted as such)
         arms_out = []
         for tg in tgs:
-            if tg["rel"] != rel or not tg.get("arms"): continue
+            if tg["rel"] != rel or not isinstance(tg.get("arms"), list): continue
             tu = (units or {}).get(tg["area"])
             thm_of = {(t[0] or None, t[1]): t[3] for t in tg["fns"]}
             for (impl_, fn_) in sorted(set((a["impl"], a["fn"]) for a in tg["arms"])):
@@ -697,6 +749,7 @@ def census(repo, tgs=None, units=None):
                                 "theorem": thm_of.get(key_), "line": (tu.fns[key_].line if ok_ else 0),
                                 **({} if ok_ else {"why": (tu.failed.get(key_) if tu else "unit missing")})})
                 arms_out.append({"fn": "%s::%s" % (impl_, fn_), "area": tg["area"], "arms_total": total, "arms": lst})
+        rows += arm_rows
         cnt = lambda st: sum(1 for r in rows if r["status"] == st)
         out[rel] = {"properties": props_of[rel], "fns": len(rows), "tied": cnt("tied"), "translated_untied": cnt("translated"),
                     "not_translatable": cnt("not translatable"), "declarations": cnt("declaration"), "list": rows,
